@@ -1,0 +1,16 @@
+//go:build verif
+
+package inhibit
+
+import "sync/atomic"
+
+// VerifPoint, when set by a verification harness, is called at the named points of the
+// inhibitor's start-up with the values involved. The harness may record the step and/or
+// delay the calling goroutine. No call site is inside a critical section.
+var VerifPoint atomic.Pointer[func(name string, args ...any)]
+
+func verifPoint(name string, args ...any) {
+	if f := VerifPoint.Load(); f != nil {
+		(*f)(name, args...)
+	}
+}
